@@ -10,40 +10,20 @@ ZRR = Z + "ZoneRecords::resolve"
 
 
 def map_closure_owner(prog, fn, res, e):
-    """For `collect(map(iter(X), closure))` return (X expr, owner expr captured by the closure, ok)
-    where the closure body is `zr.to_rr(owner)`."""
-    e = A.peel(e)
-    if not (e[0] == "call" and e[1].endswith("collect")):
+    """For a Vec built as `for zr in X { v.push(zr.to_rr(owner)) }` - which is also what
+    `X.iter().map(|zr| zr.to_rr(owner)).collect()` is after normalisation - return (X, owner)."""
+    fills = A.collection_fills(fn, res, e)
+    if not fills or len(fills) != 1:
         return None
-    m = A.peel(e[2][0])
-    if not (m[0] == "call" and m[1].endswith("::map")):
+    b, args = fills[0]
+    v = A.peel(args[0])
+    if not (v[0] == "call" and v[1] == Z + "ZoneRecord::to_rr" and len(v[2]) == 2):
         return None
-    src, clo = m[2][0], A.peel(m[2][1])
-    if clo[0] != "closure":
+    zr, owner = v[2]
+    src = A.iter_elem_source(zr)
+    if src is None:
         return None
-    cf = prog.fn(clo[1])
-    cr = A.Resolver(cf)
-    rets = [A.peel(x) for _, x in A.return_exprs(cf, cr)]
-    if len(rets) != 1 or rets[0][0] != "call" or rets[0][1] != Z + "ZoneRecord::to_rr":
-        return None
-    zr, owner = rets[0][2]
-    if A.peel(zr) != ("param", 2):
-        return None
-    op = A.peel(owner)
-    captured = None
-    if op[0] == "upvar":
-        ups = cf.rec.get("upvars") or []
-        idx = ups.index(op[1]) if op[1] in ups else None
-        if idx is not None and idx < len(clo[2]):
-            captured = clo[2][idx]
-    elif op[0] == "field" and A.peel(op[1])[0] == "upvar":
-        # closure captured `self`, uses self.nsdname
-        inner = A.peel(op[1])
-        ups = cf.rec.get("upvars") or []
-        idx = ups.index(inner[1]) if inner[1] in ups else None
-        if idx is not None and idx < len(clo[2]):
-            captured = ("field", clo[2][idx], op[2])
-    return src, captured
+    return src, owner
 
 
 def run(ctx):
@@ -293,7 +273,9 @@ def apex_rules(ctx, rule):
             results.append((fn, res, b, i, st, res.rvalue(st["rv"], (b, i))))
     helper_calls = A.call_blocks(zr, A.name_is(HELPER))
     zres = prog.fn(Z + "Zone::resolve")
-    clos = [cf for cf in prog.family(Z + "Zone::resolve") if cf is not zres]
+    # `relative_domain(name).map(|relative| self.records.resolve(..))`: after normalisation the call sits in
+    # Zone::resolve itself; a closure that was not spliced is looked at as well
+    clos = prog.family(Z + "Zone::resolve")
     ok = False
     for cf in clos:
         cr = A.Resolver(cf)
@@ -302,7 +284,9 @@ def apex_rules(ctx, rule):
             if len(e[2]) != 5:
                 continue
             ap = A.peel(e[2][4])
-            ok = A.peel(e[2][3]) == ("param", 2) and ap[0] == "const" and ap[2] in (True, 1) and A.last_field(e[2][0]) == "records"
+            rel = A.peel(e[2][3])
+            rel_ok = rel == ("param", 2) or any(x[0] == "call" and x[1].endswith("Zone::relative_domain") for x in A.walk(rel))
+            ok = rel_ok and ap[0] == "const" and ap[2] in (True, 1) and A.last_field(e[2][0]) == "records"
             ctx.check(ok, rule, "Zone::resolve:starts-at-apex", "records.resolve(name, qtype, relative, at_apex = true)",
                       "Zone::resolve starts the descent with %s" % [A.show(x) for x in e[2]], cf.loc(b))
     ctx.check(ok, rule, "Zone::resolve:found", "descent entry found", "Zone::resolve does not call ZoneRecords::resolve", zres.loc())
